@@ -125,6 +125,9 @@ class GaussianProcessSampler(MLSurrogateSampler):
         kernel = kernels.Matern(length_scale=1, length_scale_bounds=(1e-5, 1e5), nu=2.5)
 
         noise_var = y.var() * 0.01
+        if noise_var == 0:
+            # all losses equal: without any jitter a repeated point makes the kernel matrix singular
+            noise_var = 1e-10  # scikit-learn's own default
 
         self._gpmodel = GaussianProcessRegressor(
             kernel=kernel,
